@@ -188,7 +188,7 @@ func c13Setters(c *choice.Ctx, st *Stats, p int) {
 		s = sc{"SetSecurityLifeCycle", func() error { return cl.SetSecurityLifeCycle(v) }, refmodel.LifecycleValid(v)}
 	case 7:
 		comps := genCompList(c)
-		var list []psatoken.ISwComponent
+		list := []psatoken.ISwComponent{} // never nil here: nil means "no measurements" (profile 1) / is rejected (profile 2)
 		okAll := true
 		var wantCls []string
 		for _, x := range comps {
@@ -209,6 +209,12 @@ func c13Setters(c *choice.Ctx, st *Stats, p int) {
 			got := errClass(err)
 			if okAll || !classIn(got, strings.Join(wantCls, "|")) {
 				c.Failf(fmt.Sprintf("C13:setter:P%d:SetSoftwareComponents:got=%s:want=%s", p, got, strings.Join(wantCls, "|")), "SetSoftwareComponents error %v has class %q, want one of %v", err, got, wantCls)
+			}
+		}
+		if p == 2 {
+			// profile 2 has no "no measurements" notion: a nil list is a malformed value
+			if nerr := cl.SetSoftwareComponents(nil); nerr != nil && errClass(nerr) != "wrong-syntax" {
+				c.Failf("C13:setter:P2:SetSoftwareComponents(nil):got="+errClass(nerr), "error %v has class %q, want wrong-syntax", nerr, errClass(nerr))
 			}
 		}
 		st.Outcome("setter:components")
